@@ -109,7 +109,8 @@ def from_xir(xir_prog: xir.Program) -> Program:
                 # convert symbolic expressions to symbolic expressions containing the corresponding
                 # MeasuredParameter and FreeParameter instances.
                 if isinstance(op.params, dict):
-                    vals = sfpar.par_convert(op.params.values(), prog)
+                    vals = [_expression(v) for v in op.params.values()]
+                    vals = sfpar.par_convert(vals, prog)
                     params = dict(zip(op.params.keys(), vals))
                     gate(**params) | regrefs  # pylint:disable=expression-not-assigned
                 else:
@@ -117,6 +118,9 @@ def from_xir(xir_prog: xir.Program) -> Program:
                     for p in op.params:
                         if isinstance(p, Decimal):
                             params.append(float(p))
+                        elif isinstance(p, str):
+                            # an expression of free and measured parameters
+                            params.append(_expression(p))
                         elif isinstance(p, Iterable):
                             params.append(np.array(_listr(p)))
                         else:
@@ -194,11 +198,14 @@ def from_xir_to_tdm(xir_prog: xir.Program) -> TDMProgram:
                 # convert symbolic expressions to symbolic expressions containing the corresponding
                 # MeasuredParameter and FreeParameter instances.
                 if isinstance(op.params, dict):
-                    vals = sfpar.par_convert(op.params.values(), prog)
-                    params = dict(zip(op.params.keys(), vals))
-                    for key, val in params.items():
+                    vals = []
+                    for val in op.params.values():
                         if isinstance(val, str) and is_ptype(val):
-                            params[key] = p[int(val[1:])]
+                            vals.append(p[int(val[1:])])
+                        else:
+                            vals.append(_expression(val))
+                    vals = sfpar.par_convert(vals, prog)
+                    params = dict(zip(op.params.keys(), vals))
                     gate(**params) | regrefs  # pylint:disable=expression-not-assigned
                 else:
                     params = []
@@ -210,7 +217,7 @@ def from_xir_to_tdm(xir_prog: xir.Program) -> TDMProgram:
                         elif isinstance(param, str) and is_ptype(param):
                             params.append(p[int(param[1:])])
                         else:
-                            params.append(param)
+                            params.append(_expression(param))
                     params = sfpar.par_convert(params, prog)
                     gate(*params) | regrefs  # pylint:disable=expression-not-assigned
             else:
@@ -326,6 +333,14 @@ def _param_to_xir(a, prog):
     elif isinstance(a, Iterable):
         # if an iterable, make sure it only consists of lists and Python types
         a = _listr(a)
+    return a
+
+
+def _expression(a):
+    """XIR has no string values: a string parameter is an expression of variables, i.e., of
+    free and measured parameters (as written by :func:`to_xir`)."""
+    if isinstance(a, str):
+        return sfpar.par_from_str(a)
     return a
 
 
